@@ -1,5 +1,6 @@
 use crate::suite::{Ctx, Out};
 pub mod c15;
+pub mod c16;
 
 pub fn run(name : &str, ctx : &Ctx, out : &mut Out) -> bool
 {
@@ -7,6 +8,8 @@ pub fn run(name : &str, ctx : &Ctx, out : &mut Out) -> bool
     {
         "c15_base62" => c15::base62(ctx, out),
         "c15_sha" => c15::sha(ctx, out),
+        "c16_history" => c16::history(ctx, out),
+        "c16_table" => c16::table(ctx, out),
         _ => return false,
     }
     true
